@@ -192,8 +192,9 @@ pub mod parser {
         parse_css_tag_chars(&cell_text_chars)
     }
 
+    /// the whole text has to be the tag, a label that merely starts with one is a label
     fn parse_css_tag_chars(input: &[char]) -> Result<Vec<String>, pom::Error> {
-        tag_classes().parse(input)
+        (tag_classes() - end()).parse(input)
     }
 
     /// string inside a css content, taken as is as long as it is not `{` or `}`
